@@ -180,7 +180,7 @@ def unsplit_netloc(username, password, hostname, port):
         auth = None
 
     # NOTE: parsed IPv6 hostnames have lost their brackets
-    if ":" in hostname:
+    if hostname and ":" in hostname:
         hostname = "[" + hostname + "]"
 
     if auth:
